@@ -184,6 +184,19 @@ func runCheck(args []string) int {
 			lines = append(lines, fmt.Sprintf("  harness=%s kind=%s label=%q at %s (%s)", v.Harness, v.Kind, short(v.Label), v.Pos, how))
 		}
 	}
+	// translator validation: concrete vectors (models of explored path conditions) through the native build
+	var vectors []symx.Vector
+	for _, r := range results {
+		if strings.HasSuffix(r.Name, "_E") {
+			continue
+		}
+		vectors = append(vectors, r.Vectors...)
+	}
+	tvOK, tvBad, tvMsgs := validateNatively(vectors)
+	validated += tvOK
+	for _, m := range tvMsgs {
+		lines = append(lines, "TRANSLATOR-DISAGREEMENT "+m)
+	}
 	for _, n := range vacuous {
 		lines = append(lines, fmt.Sprintf("VACUOUS harness=%s reached none of its cover points (broken check, not a verdict)", n))
 		if exit == 0 {
@@ -238,6 +251,7 @@ func runCheck(args []string) int {
 			"cover_labels":                  covers,
 			"known_findings_reported":       nknown,
 			"unconfirmed_counterexamples":   nunconf,
+			"translator_validation":         fmt.Sprintf("%d concrete vectors (solver models of explored path conditions) re-run through the native build of the same harness: %d agree (no assertion fails, same cover points), %d disagree", len(vectors), tvOK, tvBad),
 			"load_s":                        eng.LoadS,
 			"notes":                         keysB(notes),
 		},
@@ -476,4 +490,135 @@ func TestVerifReplay(t *testing.T) {
 		tail = tail[len(tail)-400:]
 	}
 	return -1, "native run inconclusive: " + strings.ReplaceAll(tail, "\n", " | ")
+}
+
+
+// validateNatively runs the vectors through `go test` of the same harnesses and compares
+// the observations (assertions hold, cover points equal unless the path is schedule dependent).
+func validateNatively(vs []symx.Vector) (ok, bad int, msgs []string) {
+	if len(vs) == 0 {
+		return 0, 0, nil
+	}
+	tmp, err := os.MkdirTemp("", "verif-validate-")
+	if err != nil {
+		return 0, 0, nil
+	}
+	defer os.RemoveAll(tmp)
+	repl := map[string]string{}
+	files, _ := filepath.Glob("/verif/harness/*.go")
+	for _, f := range files {
+		base := filepath.Base(f)
+		if strings.HasPrefix(base, "cmd_") {
+			continue
+		}
+		repl[filepath.Join("/repo", "zz_verif_"+base)] = f
+	}
+	names := map[string]bool{}
+	for _, v := range vs {
+		names[v.Harness] = true
+	}
+	var reg strings.Builder
+	for n := range names {
+		fmt.Fprintf(&reg, "\t%q: %s,\n", n, n)
+	}
+	vb, _ := json.Marshal(vs)
+	vf := filepath.Join(tmp, "vectors.json")
+	os.WriteFile(vf, vb, 0644)
+	src := `package desync
+
+import (
+	"encoding/json"
+	"fmt"
+	"os"
+	"sort"
+	"testing"
+)
+
+var verifHarnessReg = map[string]func(){
+` + reg.String() + `}
+
+func TestVerifValidate(t *testing.T) {
+	b, err := os.ReadFile(os.Getenv("VERIF_VECTORS"))
+	if err != nil {
+		t.Fatal(err)
+	}
+	var vs []struct {
+		Harness string
+		Model   map[string]string
+	}
+	if err := json.Unmarshal(b, &vs); err != nil {
+		t.Fatal(err)
+	}
+	for i, v := range vs {
+		func() {
+			vReplay = &vReplayData{Model: v.Model}
+			vNames = map[string]int{}
+			vFailed = nil
+			vCovered = map[string]bool{}
+			Digest = SHA512256{}
+			defer func() {
+				r := recover()
+				var cs []string
+				for c := range vCovered {
+					cs = append(cs, c)
+				}
+				sort.Strings(cs)
+				if _, af := r.(vAssumeFailed); af {
+					r = "assume-failed"
+				}
+				fmt.Printf("VERIF-VALIDATE %d failed=%q panic=%v covers=%q\n", i, vFailed, r, cs)
+			}()
+			verifHarnessReg[v.Harness]()
+		}()
+	}
+}
+`
+	tf := filepath.Join(tmp, "validate_test.go")
+	os.WriteFile(tf, []byte(src), 0644)
+	repl["/repo/zz_verif_validate_test.go"] = tf
+	ov, _ := json.Marshal(map[string]interface{}{"Replace": repl})
+	of := filepath.Join(tmp, "overlay.json")
+	os.WriteFile(of, ov, 0644)
+	cmd := exec.Command("go", "test", "-v", "-vet=off", "-count=1", "-run", "^TestVerifValidate$", "-overlay", of, "-timeout", "300s", ".")
+	cmd.Dir = "/repo"
+	cmd.Env = append(os.Environ(), "GOFLAGS=-mod=mod", "GOPROXY=off", "GOSUMDB=off", "GOTOOLCHAIN=local", "VERIF_VECTORS="+vf)
+	out, _ := cmd.CombinedOutput()
+	seen := map[int]bool{}
+	for _, l := range strings.Split(string(out), "\n") {
+		if !strings.HasPrefix(l, "VERIF-VALIDATE ") {
+			continue
+		}
+		var idx int
+		fmt.Sscanf(l, "VERIF-VALIDATE %d", &idx)
+		if idx < 0 || idx >= len(vs) {
+			continue
+		}
+		seen[idx] = true
+		v := vs[idx]
+		want := fmt.Sprintf("covers=%q", v.Covers)
+		if v.Covers == nil {
+			want = "covers=[]"
+		}
+		good := strings.Contains(l, "failed=[]") && strings.Contains(l, "panic=<nil>")
+		if good && !v.Sched && !strings.HasSuffix(l, want) {
+			good = false
+		}
+		if good {
+			ok++
+		} else {
+			bad++
+			msgs = append(msgs, fmt.Sprintf("harness=%s engine-covers=%q native: %s", v.Harness, v.Covers, short(l)))
+		}
+	}
+	for i := range vs {
+		if !seen[i] {
+			bad++
+			tail := string(out)
+			if len(tail) > 300 {
+				tail = tail[len(tail)-300:]
+			}
+			msgs = append(msgs, fmt.Sprintf("harness=%s vector %d produced no native observation: %s", vs[i].Harness, i, strings.ReplaceAll(tail, "\n", " | ")))
+		}
+	}
+	return
 }
